@@ -83,6 +83,20 @@ pub fn fixed_cases() -> Vec<Case> {
     push("fixed-bom-utf8", b"\xef\xbb\xbfhello".to_vec(), d.clone());
     push("fixed-bom-doubled", b"\xef\xbb\xbf\xef\xbb\xbfhello".to_vec(), d.clone());
     push("fixed-bom-only", b"\xef\xbb\xbf".to_vec(), d.clone());
+    // a mark, the same mark again as CONTENT, then enough clean text for the marked encoding to be accepted:
+    // the exposed text starts with U+FEFF (the second mark) -- for each of the four marks, also with a permissive threshold
+    {
+        let body = "Le c\u{153}ur a ses raisons que la raison ne conna\u{ee}t point. On le sait en mille choses; c'est le c\u{153}ur qui sent, et non la raison. \u{412}\u{441}\u{435} \u{441}\u{447}\u{430}\u{441}\u{442}\u{43b}\u{438}\u{432}\u{44b}\u{435} \u{441}\u{435}\u{43c}\u{44c}\u{438} \u{43f}\u{43e}\u{445}\u{43e}\u{436}\u{438} \u{434}\u{440}\u{443}\u{433} \u{43d}\u{430} \u{434}\u{440}\u{443}\u{433}\u{430}. ".repeat(3);
+        for (enc, m) in marks() {
+            let mut b = m.to_vec();
+            b.extend_from_slice(m);
+            b.extend_from_slice(&encode_text(&body, enc).unwrap_or_default());
+            push("fixed-doubled-mark-text", b.clone(), d.clone());
+            let mut s1 = d.clone();
+            s1.threshold = ordered_float::OrderedFloat(1.0);
+            push("fixed-doubled-mark-text-permissive", b, s1);
+        }
+    }
     push("fixed-utf16le", b"\xff\xfeh\x00i\x00".to_vec(), d.clone());
     push("fixed-utf16be-bad", b"\xfe\xff\x00".to_vec(), d.clone());
     push("fixed-gb18030-mark", b"\x84\x31\x95\x33abc".to_vec(), d.clone());
